@@ -33,8 +33,8 @@ func c34Payload(sz, tag string) string {
 }
 
 func c34Run(arg string) explore.HistFn {
-	wb, pend := 64, 8
-	fmt.Sscanf(arg, "wb=%d,pend=%d", &wb, &pend)
+	wb, pend, mps := 64, 8, 48
+	fmt.Sscanf(arg, "wb=%d,pend=%d,mps=%d", &wb, &pend, &mps)
 	maxOps := 4
 	if strings.Contains(arg, "deep") {
 		maxOps = 5
@@ -45,7 +45,7 @@ func c34Run(arg string) explore.HistFn {
 			Opts: func(o *mqtt.Options) { o.ClientNetWriteBufferSize = wb },
 		})
 		h.connect("p", world.ConnectPacket("p", 4, true))
-		h.connect("a", world.ConnectPacket("a", 5, true, ref.Prop{ID: ref.PMaximumPacketSize, Num: 48}))
+		h.connect("a", world.ConnectPacket("a", 5, true, ref.Prop{ID: ref.PMaximumPacketSize, Num: uint32(mps)}))
 		a := h.Cl["a"]
 		subscribed := false
 		faulted := false
@@ -56,6 +56,8 @@ func c34Run(arg string) explore.HistFn {
 			oversize bool
 		}
 		var entitled []msg
+		retainedNow := map[string]msg{} // topic -> retained message (QoS 0)
+		big := func(sz string) bool { return sz == "L" && mps < 80 }
 		n := 0
 		pid := uint16(30)
 		var outstanding []ref.Packet
@@ -69,16 +71,20 @@ func c34Run(arg string) explore.HistFn {
 				pk := pub(f[1], c34Payload(f[2], tag), 0, 0)
 				pk.Retain = true
 				h.do("p", pk)
-				if f[2] == "L" {
+				if big(f[2]) {
 					oversizeSeen = true
+				}
+				retainedNow[f[1]] = msg{tag, 0, big(f[2])}
+				if subscribed {
+					entitled = append(entitled, msg{tag, 0, big(f[2])})
 				}
 			case f[0] == "pub":
 				q := byte(f[3][0] - '0')
 				h.do("p", pub(f[1], c34Payload(f[2], tag), q, pid))
 				if subscribed {
-					entitled = append(entitled, msg{tag, q, f[2] == "L"})
+					entitled = append(entitled, msg{tag, q, big(f[2])})
 				}
-				if f[2] == "L" {
+				if big(f[2]) {
 					oversizeSeen = true
 				}
 			case f[0] == "fault":
@@ -94,9 +100,9 @@ func c34Run(arg string) explore.HistFn {
 			case f[0] == "a" && f[1] == "pub":
 				h.do("a", pub("x/a", c34Payload(f[2], tag), 1, pid))
 				if subscribed {
-					entitled = append(entitled, msg{tag, 1, f[2] == "L"})
+					entitled = append(entitled, msg{tag, 1, big(f[2])})
 				}
-				if f[2] == "L" {
+				if big(f[2]) {
 					oversizeSeen = true
 				}
 			case f[0] == "a":
@@ -105,6 +111,10 @@ func c34Run(arg string) explore.HistFn {
 					case "sub":
 						a.Send(sub(pid, "x/#", 1))
 						subscribed = true
+						// Retain Handling 0: every SUBSCRIBE is owed the current retained messages
+						for _, k := range explore.SortedKeys(retainedNow) {
+							entitled = append(entitled, retainedNow[k])
+						}
 					case "ping":
 						a.Send(ref.Packet{Type: ref.PINGREQ})
 					}
@@ -198,7 +208,7 @@ func c34Run(arg string) explore.HistFn {
 		})
 		var next []string
 		if len(hist) < maxOps {
-			next = append(next, "ret:x/a:S", "ret:x/b:L", "ret:x/b:S", "pub:x/a:S:0", "pub:x/a:S:1", "pub:x/b:L:0", "pub:x/b:L:1",
+			next = append(next, "ret:x/a:S", "ret:x/b:L", "ret:x/b:S", "ret:x/0:L", "pub:x/a:S:0", "pub:x/a:S:1", "pub:x/b:L:0", "pub:x/b:L:1",
 				"a:sub", "a:ping", "a:sub+ping", "a:sub+ping+ping", "a:pub:S", "a:pub:L", "a:ack")
 			if !faulted {
 				next = append(next, "fault:1", "fault:2", "fault:3")
@@ -214,11 +224,11 @@ func init() {
 	explore.Register("C34", func(c *explore.Ctx) {
 		c.Rep.Level = "model_checking"
 		c.Rep.Assumption("sequential histories under the default schedule; a client may send several packets in one segment so that direct writes happen while its outbound queue is non-empty")
-		cfgs := []string{"wb=64,pend=8", "wb=8,pend=2", "wb=64,pend=1"}
-		per := 22 * time.Second
+		cfgs := []string{"wb=64,pend=8,mps=48", "wb=8,pend=2,mps=48", "wb=64,pend=1,mps=48", "wb=64,pend=8,mps=200"}
+		per := 18 * time.Second
 		depth := 4
 		if !c.Quick() {
-			cfgs = []string{"wb=64,pend=8,deep", "wb=8,pend=2,deep", "wb=64,pend=1,deep", "wb=8,pend=1,deep", "wb=2048,pend=2,deep"}
+			cfgs = []string{"wb=64,pend=8,mps=48,deep", "wb=8,pend=2,mps=48,deep", "wb=64,pend=1,mps=48,deep", "wb=8,pend=1,mps=48,deep", "wb=2048,pend=2,mps=48,deep", "wb=64,pend=8,mps=200,deep", "wb=32,pend=2,mps=200,deep"}
 			per = 2 * time.Minute
 			depth = 5
 		}
